@@ -58,6 +58,16 @@ Proof.
     apply IH. cbn in H; lia.
 Qed.
 
+Lemma last_default {A} (l : list A) a d : last (a :: l) d = last l a.
+Proof.
+  revert a d; induction l as [|b l IH]; intros a d; [reflexivity|].
+  change (last (a :: b :: l) d) with (last (b :: l) d). rewrite (IH b d), (IH b a). reflexivity.
+Qed.
+Lemma SI_head_le_last a l : SI (a :: l) -> (a <= last l a)%nat.
+Proof.
+  intros HS. pose proof (SI_le_last (a :: l) a a HS (or_introl eq_refl)) as H. rewrite last_default in H. exact H.
+Qed.
+
 Section Interp.
   Variable pts : list rpt.
   Notation X i := (@px RNum pts i).
@@ -80,7 +90,7 @@ Section Interp.
   Proof.
     intros H Hx. rewrite segment_seq by exact H. cbn [seq map]. unfold endpoint_fit.
     set (h := fun i => nth i pts d0).
-    assert (Hlast : last (h l :: map h (seq (S l) (r - l))) (h l) = h r).
+    assert (Hlast : @last (@pt RNum) (h l :: map h (seq (S l) (r - l))) (h l) = h r).
     { change (h l :: map h (seq (S l) (r - l))) with (map h (seq l (S (r - l)))).
       rewrite seq_S, map_app. cbn [map]. rewrite last_last. f_equal. lia. }
     change (nth l pts d0) with (h l). rewrite Hlast.
@@ -118,11 +128,9 @@ Section Interp.
     @interp_go RNum pts lft rest i = Y i.
   Proof.
     induction rest as [|rgt rest IH]; intros lft i HS Hi; cbn [interp_go]; auto.
-    cbn [last] in Hi.
-    assert (Hle : (rgt <= last rest rgt)%nat).
-    { pose proof (SI_le_last (rgt :: rest) rgt rgt (SI_tl _ _ HS) (or_introl eq_refl)) as H.
-      destruct rest; cbn [last] in *; auto. }
-    assert (Hi' : (last rest rgt < i)%nat) by (destruct rest; cbn [last] in *; lia).
+    rewrite last_default in Hi.
+    assert (Hle : (rgt <= last rest rgt)%nat) by (apply SI_head_le_last; eapply SI_tl; eauto).
+    assert (Hi' : (last rest rgt < i)%nat) by exact Hi.
     destruct (i <=? rgt)%nat eqn:E; [apply Nat.leb_le in E; lia|].
     apply IH; [eapply SI_tl; eauto|exact Hi'].
   Qed.
@@ -135,15 +143,9 @@ Section Interp.
     assert (Hlt : (lft < rgt)%nat) by (cbn in HS; tauto).
     assert (E : (lft <=? rgt)%nat = true) by (apply Nat.leb_le; lia). rewrite E.
     assert (Hr : (rgt < length pts)%nat).
-    { pose proof (SI_le_last (rgt :: rest) lft rgt (SI_tl _ _ HS) (or_introl eq_refl)) as H. cbn [last] in Hl.
-      destruct rest; cbn [last] in *; lia. }
+    { rewrite last_default in Hl. pose proof (SI_head_le_last rgt rest (SI_tl _ _ HS)). lia. }
     rewrite endpoint_fit_R; [apply line_left|lia|]. apply Rlt_not_eq. apply Hx. lia.
   Qed.
-
-  Lemma last_cons2 {A} (a b : A) l d : last (a :: b :: l) d = last (b :: l) d.
-  Proof. reflexivity. Qed.
-  Lemma last_default {A} (l : list A) a d : last (a :: l) d = last l a.
-  Proof. revert a; induction l as [|b l IH]; intros a; cbn [last]; auto. destruct l; auto. apply (IH b). Qed.
 
   (* the accumulated segment errors = the sum over every point (once) of its squared distance to the interpolation *)
   Lemma seg_sum_interp : forall rest lft,
@@ -156,10 +158,8 @@ Section Interp.
     - cbn [seg_pairs map Rsum last interp_go]. rewrite Nat.sub_diag. cbn. lra.
     - assert (Hlt : (lft < rgt)%nat) by (cbn in HS; tauto).
       assert (HS' : SI (rgt :: rest)) by (eapply SI_tl; eauto).
-      cbn [last] in Hl. assert (HL : last (rgt :: rest) lft = last rest rgt) by apply last_default.
-      assert (Hle : (rgt <= last rest rgt)%nat).
-      { pose proof (SI_le_last (rgt :: rest) rgt rgt HS' (or_introl eq_refl)) as H. rewrite last_default in H. exact H. }
-      change (last (rgt :: rest) lft) with (last (rgt :: rest) lft) in *.
+      assert (HL : last (rgt :: rest) lft = last rest rgt) by apply last_default.
+      assert (Hle : (rgt <= last rest rgt)%nat) by (apply SI_head_le_last; exact HS').
       assert (Hl' : (last rest rgt < length pts)%nat) by (rewrite <- HL; exact Hl).
       cbn [seg_pairs map Rsum fst snd].
       rewrite (IH rgt HS' Hl' Hx).
@@ -196,7 +196,7 @@ Section Interp.
     intros HS H0 HL Hn Hx. unfold grmse_closed. rewrite grmse_def. unfold grmse_spec, rmse_interp.
     rewrite !np_sum_R. f_equal. f_equal.
     destruct red as [|lft rest]; [cbn in H0; lia|]. cbn [hd] in H0. subst lft.
-    unfold seg_values. cbn [segments interp]. rewrite map_map.
+    unfold seg_values. cbn [segments interp].
     rewrite last_default in HL.
     rewrite seg_sum_interp; [|exact HS|lia|exact Hx].
     rewrite HL, Nat.sub_0_r. replace (S (length pts - 1)) with (length pts) by lia.
